@@ -448,3 +448,25 @@ PROPS["C04"] = {
                "exist only as actor message schedules",
     "explanation": "bounded symbolic execution of the log file code with a symbolic crash point over the journal of file mutations",
 }
+
+
+def _c08(tier, seed):
+    from rs2smt import c08
+    return c08.run(tier, seed)
+
+
+PROPS["C08"] = {
+    "level": "model_checking",
+    "files": ["src/raft/filestore/core.rs", "src/raft/filestore/raftapply.rs"],
+    "smt": _c08,
+    "trusted_base": PROPS["C09"]["trusted_base"],
+    "assumptions": [
+        "narrow: the receiving side of a snapshot installation inside one process - FileStore::finalize_snapshot_installation (the RaftStorage method async-raft calls when the last "
+        "chunk has arrived) and Handler<StateApplyRequest> / StateApplyManager::apply_snapshot evaluated from source; index / snapshot / log managers and the data handler are recording sinks",
+        "the installed snapshot has a 2-member header and 2 records; snapshot index / term / delete_through symbolic",
+        "counterexamples about the state reaching the state machine are replayed on a real node (real store actors + state-machine components, harness/hist_store.rs) through "
+        "RaftStorage::{create_snapshot, finalize_snapshot_installation}",
+    ],
+    "outside": "the sending side and the chunk transfer (async-raft, tonic), leader election and log replication around the installation, a lagging follower whose old state must be discarded",
+    "explanation": "bounded symbolic execution of the snapshot-installation receiver; emission-sequence oracle",
+}
